@@ -433,6 +433,30 @@ pub(crate) fn eval_expr(ctx: &Context, expr: &Expr) -> Result<Value, QueryError>
     }
 }
 
+/// Multiplies two maps of unit names to powers: the powers of a name add up,
+/// and a name whose power becomes zero is dropped.
+fn merge_unit_names(
+    left: &BTreeMap<String, isize>,
+    right: &BTreeMap<String, isize>,
+) -> Result<BTreeMap<String, isize>, QueryError> {
+    let overflow = left.iter().any(|(name, power)| match right.get(name) {
+        Some(other) => power
+            .checked_add(*other)
+            .map_or(true, |sum| sum == isize::MIN),
+        None => false,
+    });
+    if overflow {
+        return Err(QueryError::generic("Exponent is too large".to_string()));
+    }
+    Ok(crate::algorithms::btree_merge(left, right, |a, b| {
+        if a + b != 0 {
+            Some(a + b)
+        } else {
+            None
+        }
+    }))
+}
+
 pub fn eval_unit_name(
     ctx: &Context,
     expr: &Expr,
@@ -489,16 +513,7 @@ pub fn eval_unit_name(
                     .into_iter()
                     .map(|(k, v)| (k, -v))
                     .collect::<BTreeMap<_, _>>();
-                Ok((
-                    crate::algorithms::btree_merge(&left_unit, &right_unit, |a, b| {
-                        if a + b != 0 {
-                            Some(a + b)
-                        } else {
-                            None
-                        }
-                    }),
-                    &left / &right,
-                ))
+                Ok((merge_unit_names(&left_unit, &right_unit)?, &left / &right))
             }
             BinOpType::Pow => {
                 let right = eval_expr(ctx, &binop.right)?;
@@ -576,16 +591,7 @@ pub fn eval_unit_name(
                 .fold(eval_unit_name(ctx, &exprs[0]), |acc, b| {
                     let (acc, av) = acc?;
                     let (b, bv) = eval_unit_name(ctx, b)?;
-                    Ok((
-                        crate::algorithms::btree_merge(&acc, &b, |a, b| {
-                            if a + b != 0 {
-                                Some(a + b)
-                            } else {
-                                None
-                            }
-                        }),
-                        &av * &bv,
-                    ))
+                    Ok((merge_unit_names(&acc, &b)?, &av * &bv))
                 })
         }
         Expr::Of {
